@@ -117,65 +117,85 @@ def job_copy_svg(jc):
     jc.expect_reached("1 docs", "2 docs")
 
 
+class _Glyf:
+    def __init__(self, glyphs):
+        self.glyphs = dict(glyphs)
+
+    def __getitem__(self, k):
+        return self.glyphs[k]
+
+
+class _Hmtx:
+    def __init__(self, m):
+        self.metrics = dict(m)
+
+    def __getitem__(self, k):
+        return self.metrics[k]
+
+    def __setitem__(self, k, v):
+        self.metrics[k] = v
+
+
+def _copy_colr_case(adv_a, adv_new, same, version):
+    donor = StubFont([".notdef", "a", "b", "a.0", "b.0"])
+    donor["glyf"] = _Glyf({n: f"donor:{n}" for n in donor.getGlyphOrder()})
+    donor["hmtx"] = _Hmtx({"a": (adv_a, 0), "b": (700, 0), "a.0": (adv_new, 0), "b.0": (adv_new, 1)})
+    donor["CPAL"] = Tbl(palettes=[["donor-pal"]])
+    if version == 1:
+        donor["COLR"] = Tbl(version=1)
+    else:
+        donor["COLR"] = Tbl(version=0, ColorLayers={"a": [Tbl(name="a.0")], "b": [Tbl(name="b.0"), Tbl(name="a.0")]})
+    target = StubFont([".notdef", "a", "b", "zz"])
+    target["glyf"] = _Glyf({n: f"target:{n}" for n in target.getGlyphOrder()})
+    target["hmtx"] = _Hmtx({"a": (adv_a, 0), "b": (700, 0), "zz": (1, 1)})
+    if same:
+        target["CPAL"] = Tbl(palettes=[["old0"], ["old1"]])
+    with shims.installed([shims.Shim("nanoemoji.glue_together", "paints_of_type", lambda font, fmt: [Tbl(Glyph="b.0"), Tbl(Glyph="a.0"), Tbl(Glyph="a.0")], "COLR walk (fontTools) not under test")]):
+        GT._copy_colr(target, donor)
+    return target, donor
+
+
+def _copy_colr_structure(target, donor, same):
+    order = target.getGlyphOrder()
+    ok = order == [".notdef", "a", "b", "zz", "a.0", "b.0"] and target["glyf"].glyphs["a"] == "target:a" and target["glyf"].glyphs["a.0"] == "donor:a.0"
+    ok = ok and target["COLR"] is donor["COLR"] and target["hmtx"].metrics["zz"] == (1, 1)
+    if same:
+        return ok and target["CPAL"].palettes == [["donor-pal"], ["old1"]]
+    return ok and target["CPAL"] is donor["CPAL"]
+
+
+def replay_copy_colr(inp):
+    a, n, same, version = int(inp["adv_a"]), int(inp["adv_new"]), int(inp["same"]), inp["version"]
+    try:
+        target, donor = _copy_colr_case(a, n, same, version)
+    except Exception as e:
+        return {"raised": repr(e)}
+    if not _copy_colr_structure(target, donor, same) or target["hmtx"].metrics["a"][0] != a or target["hmtx"].metrics["a.0"][0] != n:
+        return {"glyph order": target.getGlyphOrder(), "hmtx": {k: list(v) for k, v in target["hmtx"].metrics.items()}, "palettes": repr(getattr(target["CPAL"], "palettes", None)),
+                "COLR is donor's": target["COLR"] is donor["COLR"]}
+    return None
+
+
 def job_copy_colr(jc):
     jc.encode(GT._copy_colr)
     version = jc.params["version"]
-    inp = {}
-
-    class Glyf:
-        def __init__(self, glyphs):
-            self.glyphs = dict(glyphs)
-
-        def __getitem__(self, k):
-            return self.glyphs[k]
-
-    class Hmtx:
-        def __init__(self, m):
-            self.metrics = dict(m)
-
-        def __getitem__(self, k):
-            return self.metrics[k]
-
-        def __setitem__(self, k, v):
-            self.metrics[k] = v
+    inp = {"version": version, "adv_a": core.SymNum(z3.Int("adv_a")), "adv_new": core.SymNum(z3.Int("adv_new")), "same": core.SymNum(z3.Int("same"))}
 
     def body():
         adv_a = core.integer("adv_a", 0, 4000)
         adv_new = core.integer("adv_new", 0, 4000)
-        same = core.choice(2)
-        donor = StubFont([".notdef", "a", "b", "a.0", "b.0"])
-        donor["glyf"] = Glyf({n: f"donor:{n}" for n in donor.getGlyphOrder()})
-        donor["hmtx"] = Hmtx({"a": (adv_a, 0), "b": (700, 0), "a.0": (adv_new, 0), "b.0": (adv_new, 1)})
-        donor["CPAL"] = Tbl(palettes=[["donor-pal"]])
-        if version == 1:
-            donor["COLR"] = Tbl(version=1)
-        else:
-            donor["COLR"] = Tbl(version=0, ColorLayers={"a": [Tbl(name="a.0")], "b": [Tbl(name="b.0"), Tbl(name="a.0")]})
-        target = StubFont([".notdef", "a", "b", "zz"])
-        target["glyf"] = Glyf({n: f"target:{n}" for n in target.getGlyphOrder()})
-        target["hmtx"] = Hmtx({"a": (adv_a, 0), "b": (700, 0), "zz": (1, 1)})
-        if same:
-            target["CPAL"] = Tbl(palettes=[["old0"], ["old1"]])
-        with shims.installed([shims.Shim("nanoemoji.glue_together", "paints_of_type", lambda font, fmt: [Tbl(Glyph="b.0"), Tbl(Glyph="a.0"), Tbl(Glyph="a.0")], "COLR walk (fontTools) not under test")]):
-            GT._copy_colr(target, donor)
+        same = core.integer("same", 0, 1).concretize()
+        target, donor = _copy_colr_case(adv_a, adv_new, same, version)
         return adv_a, adv_new, same, target, donor
 
     results = jc.explore(body, catch=(AssertionError,))
     for r in results:
-        if r.exc is not None:
-            jc.inconclusive.append(f"_copy_colr raised {r.exc!r}")
+        if not jc.no_exception(r, inp, replay_copy_colr, "C12:copy_colr:raises"):
             continue
         adv_a, adv_new, same, target, donor = r.value
         jc.reach(r, "ok")
-        order = target.getGlyphOrder()
-        ok = order == [".notdef", "a", "b", "zz", "a.0", "b.0"] and target["glyf"].glyphs["a"] == "target:a" and target["glyf"].glyphs["a.0"] == "donor:a.0"
-        ok = ok and target["COLR"] is donor["COLR"] and target["hmtx"].metrics["zz"] == (1, 1)
-        if same:
-            ok = ok and target["CPAL"].palettes == [["donor-pal"], ["old1"]]
-        else:
-            ok = ok and target["CPAL"] is donor["CPAL"]
-        conj = [z3.BoolVal(ok), core.as_term(target["hmtx"].metrics["a"][0]) == core.as_term(adv_a), core.as_term(target["hmtx"].metrics["a.0"][0]) == core.as_term(adv_new)]
-        jc.prove(r, z3.And(*conj), "_copy_colr: existing glyphs/advances untouched, layer glyphs appended once (sorted), palette 0 replaced only, COLR taken from donor", inp, None, key="C12:copy_colr")
+        conj = [z3.BoolVal(_copy_colr_structure(target, donor, same)), core.as_term(target["hmtx"].metrics["a"][0]) == core.as_term(adv_a), core.as_term(target["hmtx"].metrics["a.0"][0]) == core.as_term(adv_new)]
+        jc.prove(r, z3.And(*conj), "_copy_colr: existing glyphs/advances untouched, layer glyphs appended once (sorted), palette 0 replaced only, COLR taken from donor", inp, replay_copy_colr, key="C12:copy_colr")
     jc.expect_reached("ok")
 
 
